@@ -4,14 +4,18 @@ from .. import cfggen, cfgrun, cfgstream, core, cutter, schemafam as F
 RULE = ("accepted texts of the schema family, each with exactly one injected fault of a listed kind at a random line "
         "(culprit line known by construction; both spellings of an empty section; a repeated key is a declared single key or "
         "a key of a single-valued arbitrary-key map '+', the latter repeated anywhere later in its container; an unconvertible value is a key's text "
-        "or a whole nested section that its section type's datatype rejects when the enclosing section is closed - culprit: that closing line), and the same text with 1..3 "
+        "- a text of its own, or the very text that one or two OTHER key lines of the accepted text carry as a value their datatype converts, in the same section "
+        "before or after the culprit, or elsewhere - or a whole nested section that its section type's datatype rejects when the enclosing section is closed - culprit: that closing line), and the same text with 1..3 "
         "balanced ranges moved into %include fragments so that the culprit sits in the main resource or in a fragment at "
         "any include depth (expected: the line number within that resource and that resource's URL); non-trivial = the fault was applicable "
         "and the text is rejected; distinct by (schema, text)")
 
 KINDS = ["junk", "directive", "undefined-subst", "malformed-subst", "unknown-key", "repeat-key", "repeat-arbitrary-key", "bad-key", "bad-value",
-         "unknown-header", "misplaced-header", "missing-required", "missing-required-empty", "surplus-section",
+         "bad-value-repeated-text", "unknown-header", "misplaced-header", "missing-required", "missing-required-empty", "surplus-section",
          "stray-close", "mismatched-close", "rejected-section"]
+
+# key datatypes that convert every text (zcvdt.marker: every text without '!')
+_ANY_TEXT_DTS = ("string", "null", "string-list")
 
 # key datatypes whose conversion of the text '!sbad' is a string that still holds it (what zcvdt.sectmarker looks for)
 _TEXT_DTS = ("string", "null", "zcvdt.marker")
@@ -160,29 +164,66 @@ def inject(rng, elab, items, kind):
         val = r["item"][2] if v < 0.4 else "" if v < 0.6 else rng.choice(cfggen.GOOD[dt])
         lines.insert(p, orig[: len(orig) - len(orig.lstrip())] + key + (" " + val if val else ""))
         return lines, p + 1, ["plain"], {"distance": p - r["line"], "at-top": r["cont"] is None}
-    if kind == "bad-value":
-        cands = []
-        for r in kvs:
-            children, kt = cfggen._children_of(elab, r["cont"])
+    if kind in ("bad-value", "bad-value-repeated-text"):
+        def key_dt(x):
+            children, kt = cfggen._children_of(elab, x["cont"])
             dt = None
             for key, info in children or []:
-                if info[0] == "key" and info[1] == cfggen._norm(kt, r["item"][1]):
+                if info[0] == "key" and info[1] == cfggen._norm(kt, x["item"][1]):
                     dt = info[5]
             if dt is None:
                 for key, info in children or []:
                     if info[0] == "key" and info[1] == "+":
                         dt = info[5]
+            return dt
+        cands = []
+        for r in kvs:
+            dt = key_dt(r)
             if dt in cfggen.BAD:
                 bad = [b for b in cfggen.BAD[dt] if b.strip() and "$" not in b]
                 if bad:
                     cands.append((r, bad))
         if not cands:
             return None
-        r, bad = rng.choice(cands)
-        b = rng.choice(bad)
-        ind = lines[r["line"]][: len(lines[r["line"]]) - len(lines[r["line"]].lstrip())]
-        lines[r["line"]] = ind + r["item"][1] + " " + b
-        return lines, r["line"] + 1, ["conversion"], {"value": b}
+        if kind == "bad-value":
+            r, bad = rng.choice(cands)
+            b = rng.choice(bad)
+            ind = lines[r["line"]][: len(lines[r["line"]]) - len(lines[r["line"]].lstrip())]
+            lines[r["line"]] = ind + r["item"][1] + " " + b
+            return lines, r["line"] + 1, ["conversion"], {"value": b}
+        # the unconvertible text is not unique in the configuration: one or two OTHER key lines - of the same section (or of
+        # the top level) before or after the culprit, or anywhere else - carry exactly the same text as their value, under keys
+        # whose datatype converts it (names, titles, notes: the same words given to a key that takes any text).  Those lines
+        # are fine (the text with them alone is still an accepted text, checked by the caller); the one fault is the line
+        # whose datatype rejects the text, and values are converted only when their section is closed.
+        def inst(x):
+            inside = [i for i, s in enumerate(sects) if s["end"] != s["start"] and s["start"] < x["line"] <= s["end"]]
+            return inside[-1] if inside else -1
+        rng.shuffle(cands)
+        for r, bad in cands:
+            b = rng.choice(bad)
+            tol = [x for x in kvs if x is not r and (key_dt(x) in _ANY_TEXT_DTS or (key_dt(x) == "zcvdt.marker" and "!" not in b))]
+            if tol:
+                break
+        else:
+            return None
+        same = [x for x in tol if inst(x) == inst(r)]
+        before = [x for x in same if x["line"] < r["line"]]
+        u = rng.random()
+        pool = before if (before and u < 0.5) else same if (same and u < 0.8) else tol
+        twins = rng.sample(pool, 2 if (len(pool) > 1 and rng.random() < 0.25) else 1)
+
+        def put(x, text):
+            ind = lines[x["line"]][: len(lines[x["line"]]) - len(lines[x["line"]].lstrip())]
+            lines[x["line"]] = ind + x["item"][1] + " " + text
+        for x in twins:
+            put(x, b)
+        fine = list(lines)
+        put(r, b)
+        rel = sorted({("same-section-" if inst(x) == inst(r) else "other-section-") + ("before" if x["line"] < r["line"] else "after")
+                      for x in twins})
+        return lines, r["line"] + 1, ["conversion"], {"value": b, "twins": "+".join(rel), "at-top": r["cont"] is None,
+                                                      "without-fault": fine}
     if kind in ("missing-required", "missing-required-empty"):
         cands = []
         for r in kvs:
@@ -352,6 +393,13 @@ def run(ctx):
                 ctx.count("inapplicable:" + kind)
                 continue
             lines, culprit, exp, extra = r
+            if kind == "bad-value-repeated-text":
+                # (the quantifier: accepted texts - with the other lines carrying the text, without the fault)
+                out, _, _ = cfgrun.real_load(real, "\n".join(extra.pop("without-fault")) + "\n", cfgstream.URL)
+                if out[0] != "ok":
+                    ctx.count("inapplicable:bad-value-repeated-text:text-not-accepted-elsewhere")
+                    continue
+                ctx.count("bad-value-repeated-text:%s:%s" % ("top-level" if extra["at-top"] else "in-section", extra["twins"]))
             if kind == "repeat-arbitrary-key":
                 ctx.count("repeat-arbitrary-key:%s:%s" % ("top-level" if extra["at-top"] else "in-section",
                                                           "adjacent" if extra["distance"] == 1 else "apart"))
